@@ -3,6 +3,7 @@ package main
 import (
 	"fmt"
 	"math"
+	"strings"
 
 	"verif/internal/drive"
 	"verif/internal/gen"
@@ -104,6 +105,7 @@ func (c04) Plan(tier string, seed int64) []mon.Workload {
 		{Name: "alias-programs", N: progs},
 		{Name: "self-insertion", N: int64(len(c04SelfSetups) * len(c04SelfWrites)), Exhaustive: true},
 		{Name: "literal-fresh", N: int64(len(c18Literals) * len(c18LitWrites) * 2), Exhaustive: true},
+		{Name: "computed-keys", N: int64(len(c04KeyStmts) * len(c04KeyWraps)), Exhaustive: true},
 	}
 }
 
@@ -131,6 +133,33 @@ var c04SelfWrites = []string{
 	"p(w[1] == a[1], w[1])\nw[1] = nil\np(a[1])\n",
 }
 
+// computed-keys (exhaustive): index paths whose keys are themselves index
+// reads, calls or arithmetic, in plain and compound assignments and reads,
+// straight-line and in the second iteration of a loop (whatever an
+// implementation remembers about a path while it evaluates a key).
+var c04KeyStmts = []string{
+	"a[1][b[0]] += 5", "a[b[0]][b[1]] -= 1", "m[\"y\"][names[\"which\"]] *= 2", "a[b[0]][b[b[1]]] = 7", "a[b[1]][a[0][0] - 10] /= 2", "m[names[\"other\"]][\"p\"] += m[\"y\"][\"q\"]",
+	"a[len(b) - 1][b[0] - 1] %= 7", "a[b[0]][1] = a[b[1]][b[0]]", "m[\"y\"][names[\"which\"]] = a[b[0]]", "a[-b[0]][-1] += a[b[1]][0]", "x = a[b[0]][b[1]] + a[b[1]][b[0]]",
+	"a[b[0]] = [b[1], a[0][b[0]]]", "m[names[\"missing\"]][\"q\"] += 1", "a[b[5]][0] += 1", "a[1][b] += 1",
+}
+var c04KeyWraps = []string{"S\n", "x0 = a[0][0]\nS\n", "for i = 0; i < 2; i = i + 1 {\n  S\n  p(a, m)\n}\n", "if b[0] == 1 {\n  z = m[\"y\"][\"q\"]\n  S\n}\n"}
+
+func c04ComputedKeys(i int64) c04Case {
+	wrap := c04KeyWraps[int(i)%len(c04KeyWraps)]
+	st := c04KeyStmts[int(i)/len(c04KeyWraps)]
+	text := "a = [[10, 20], [30, 40]]\nb = [1, 0]\nm = {\"y\": {\"p\": 3, \"q\": 4}, \"z\": {\"p\": 5}}\nnames = {\"which\": \"q\", \"other\": \"z\"}\nx = 0\n" +
+		strings.ReplaceAll(wrap, "S", st) + "p(a, b, m, x)\n"
+	o := drive.Parse("computed-keys", text)
+	if o.Err != nil {
+		panic("c04: computed-keys program does not parse: " + text + ": " + o.Err.Error())
+	}
+	l, err := gt.FromStmts(o.Stmts)
+	if err != nil {
+		panic(err)
+	}
+	return c04Case{Stmts: gt.CloneStmts(l), Nontrivial: true}
+}
+
 func c04SelfCase(i int64) c04Case {
 	text := c04SelfSetups[int(i)%len(c04SelfSetups)] + c04SelfWrites[int(i)/len(c04SelfSetups)]
 	o := drive.Parse("self-insertion", text)
@@ -154,6 +183,8 @@ func (c04) build(c *mon.Ctx, workload string, i int64) c04Case {
 	switch workload {
 	case "self-insertion":
 		return c04SelfCase(i)
+	case "computed-keys":
+		return c04ComputedKeys(i)
 	case "literal-fresh":
 		// the table of C18, on the v1 interpreter
 		return c04Case{Stmts: c18LiteralFresh(i), Nontrivial: true}
